@@ -25,6 +25,18 @@ NEEDS = {
  "C09-b7": "DelayAdjustedKernelSTDPD with tensor-valued kernel keyword arguments (the pre kernel receives the post kernel's buffers)",
  "C10-a7": "update parts written only through the accumulator properties (updater.weight.pos = t): a dirty flag set only by the updater's own setter skips the update",
  "C10-b7": "a connection shared by two cells of one layer together with layer.update(clear=False) (applied once per cell)",
+ "C12-a7": "ALIF whose adapted threshold is cached: a target last stepped in evaluation mode keeps its own threshold after load_state_dict when the run continues in evaluation mode",
+ "C12-b7": "DeltaPlusCurrent / SingleExponentialCurrent: the spike ring buffer is no longer persistent while its pointer is",
+ "C13-a7": "a refused constraint on an unconstrained dimension stays in the constraint map (written before it is tested)",
+ "C13-b7": "duration / inclusive assigned with inclusive=True and a duration/dt ratio a hair above an integer (1.05/0.35): ceil(ratio + 1) loses a slot",
+ "C16-a7": "hook registered with both modes enabled, then evalexec / trainexec switched off while registered (mode gate decided once at registration)",
+ "C16-b7": "pre-position hook with train_update=False, eval_update=True called in training mode (`a and b or c`)",
+ "C17-a7": "ExactNeuron.clear() fills the spike state in place: tensors returned by earlier steps (and the kept feedback) are zeroed",
+ "C17-b7": "Serial with connection_name != neuron_name and neuron_kwargs: the keyword arguments are filed under the connection's name",
+ "C18-a7": "trainer stepped, del_cell + register_cell under the same name, stepped again: the per-cell monitor lookup is cached and keeps the old monitors",
+ "C18-b7": "DelayAdjustedKernelSTDPD built without batch_reduction on a batch > 1 (falls back to the sum; documented and sibling default: mean)",
+ "C20-a7": "victor_purpura_pair_dist: equal-length trains at large times differing by less than 1e-5*|t| are declared identical (allclose fast path)",
+ "C20-b7": "interp_nearest as a 0/1-weighted lerp: a non-finite unselected neighbour (inf / nan) turns the result into nan",
 }
 for k, v in NEEDS.items():
     mp = f"/verif/seeded/{k}/meta.json"
